@@ -742,6 +742,9 @@ func gen(tier string, r *lib.Rand, emit func(string)) {
 			seqs(append(prefix, "g:"+hx(n)), k-1, out)
 			seqs(append(prefix, "a:"+hx(n)+":"+hx("doc"+strconv.Itoa(i))+":"+hx("A"+strconv.Itoa(i))), k-1, out)
 			seqs(append(prefix, "s:"+hx(n)+":"+hx("S"+strconv.Itoa(i))), k-1, out)
+			// a value that a property may already hold (the initial files use "0", "1", "2"; an earlier
+			// step of the same history may have set "0"): setting a property to its current value
+			seqs(append(prefix, "s:"+hx(n)+":"+hx("0")), k-1, out)
 		}
 	}
 	for ii, init := range inits {
@@ -763,15 +766,27 @@ func gen(tier string, r *lib.Rand, emit func(string)) {
 			init = append(init, P{Name: awk[r.Intn(len(awk))], Doc: pl.doc(r), Value: pl.value(r)})
 		}
 		var ops []string
+		var seen []string // values already in play: re-used so that a set or add repeats a current value
+		for _, q := range init {
+			seen = append(seen, q.Value)
+		}
+		val := func() string {
+			v := pl.value(r)
+			if len(seen) > 0 && r.Chance(1, 3) {
+				v = seen[r.Intn(len(seen))]
+			}
+			seen = append(seen, v)
+			return v
+		}
 		for n := r.Range(1, 8); n > 0; n-- {
 			nm := awk[r.Intn(len(awk))]
 			switch r.Intn(3) {
 			case 0:
 				ops = append(ops, "g:"+hx(nm))
 			case 1:
-				ops = append(ops, "a:"+hx(nm)+":"+hx(pl.doc(r))+":"+hx(pl.value(r)))
+				ops = append(ops, "a:"+hx(nm)+":"+hx(pl.doc(r))+":"+hx(val()))
 			default:
-				ops = append(ops, "s:"+hx(nm)+":"+hx(pl.value(r)))
+				ops = append(ops, "s:"+hx(nm)+":"+hx(val()))
 			}
 		}
 		emit("mapops " + encProps(init) + " " + strings.Join(ops, ","))
